@@ -455,6 +455,14 @@ func ErrEdges(c ssa.CallInstruction) ErrUse {
 							}
 						}
 					}
+				case *ssa.Call:
+					used = true
+					// an error-mapping helper (error in, error out, nil exactly for nil): its result stands for the error
+					if callee := r.Call.StaticCallee(); callee != nil && isErrMapper(callee) && isErrorType(r.Type()) {
+						walk(r)
+						continue
+					}
+					u.Other = true
 				case *ssa.DebugRef:
 				case *ssa.MakeInterface, *ssa.ChangeInterface, *ssa.TypeAssert:
 					used = true
@@ -474,6 +482,111 @@ func ErrEdges(c ssa.CallInstruction) ErrUse {
 		u.Dropped = true
 	}
 	return u
+}
+
+var errMapperMemo = map[*ssa.Function]bool{}
+
+// isErrMapper: fn takes exactly one error parameter, returns one error, returns the nil constant only where that
+// parameter is known to be nil, and otherwise returns values that are not nil (a made interface, a package-level
+// error variable, errors.New / fmt.Errorf) or the parameter itself where it is known non-nil.
+func isErrMapper(fn *ssa.Function) bool {
+	if v, ok := errMapperMemo[fn]; ok {
+		return v
+	}
+	errMapperMemo[fn] = false
+	if len(fn.Blocks) == 0 || fn.Signature.Results().Len() != 1 || !isErrorType(fn.Signature.Results().At(0).Type()) {
+		return false
+	}
+	var prm *ssa.Parameter
+	for _, q := range fn.Params {
+		if isErrorType(q.Type()) {
+			if prm != nil {
+				return false
+			}
+			prm = q
+		}
+	}
+	if prm == nil {
+		return false
+	}
+	// edges on which prm is nil / non-nil
+	nilEdge := map[Edge]bool{}
+	nonNilEdge := map[Edge]bool{}
+	for _, ref := range *prm.Referrers() {
+		bo, ok := ref.(*ssa.BinOp)
+		if !ok || !(bo.Op == token.EQL || bo.Op == token.NEQ) || !(isNilConst(bo.X) || isNilConst(bo.Y)) {
+			continue
+		}
+		for _, rr := range *bo.Referrers() {
+			if iff, ok := rr.(*ssa.If); ok {
+				b := iff.Block()
+				if len(b.Succs) != 2 {
+					continue
+				}
+				t, f := Edge{b, b.Succs[0]}, Edge{b, b.Succs[1]}
+				if bo.Op == token.EQL {
+					nilEdge[t], nonNilEdge[f] = true, true
+				} else {
+					nilEdge[f], nonNilEdge[t] = true, true
+				}
+			}
+		}
+	}
+	dominatedBy := func(b *ssa.BasicBlock, es map[Edge]bool) bool {
+		for e := range es {
+			if len(e.To.Preds) == 1 && e.To.Dominates(b) {
+				return true
+			}
+		}
+		return false
+	}
+	var nonNil func(v ssa.Value, b *ssa.BasicBlock, depth int) bool
+	nonNil = func(v ssa.Value, b *ssa.BasicBlock, depth int) bool {
+		switch x := v.(type) {
+		case *ssa.MakeInterface:
+			return true
+		case *ssa.UnOp:
+			_, g := x.X.(*ssa.Global)
+			return x.Op == token.MUL && g
+		case *ssa.Parameter:
+			return x == prm && dominatedBy(b, nonNilEdge)
+		case *ssa.Call:
+			f := CallObj(x)
+			return IsFunc(f, "errors", "New") || IsFunc(f, "fmt", "Errorf")
+		case *ssa.Phi:
+			if depth > 3 {
+				return false
+			}
+			for i, e := range x.Edges {
+				if !nonNil(e, x.Block().Preds[i], depth+1) {
+					return false
+				}
+			}
+			return true
+		}
+		return false
+	}
+	nRet := 0
+	for _, b := range fn.Blocks {
+		for _, in := range b.Instrs {
+			ret, ok := in.(*ssa.Return)
+			if !ok || len(ret.Results) != 1 {
+				continue
+			}
+			nRet++
+			if isNilConst(ret.Results[0]) {
+				if !dominatedBy(b, nilEdge) {
+					return false
+				}
+				continue
+			}
+			if !nonNil(ret.Results[0], b, 0) {
+				return false
+			}
+		}
+	}
+	errMapperMemo[fn] = nRet > 0
+	return nRet > 0
 }
 
 func isNilConst(v ssa.Value) bool {
